@@ -91,6 +91,30 @@ func overlapRule(p *core.Program, r *core.Report, rule string) {
 		if !bound && bad == "" {
 			bad = "the dimension loop is not bounded by the layout's stride"
 		}
+		// the verdict of disjointness (Overlaps: false, IsEmpty: true) is returned only on the true edges of those tests
+		if bad == "" && name != "IsEmpty" {
+			blocked := eng.EdgeSet{}
+			for _, b := range fn.Blocks {
+				if eng.BlockIf(b) == nil {
+					continue
+				}
+				if bo, ok := eng.BlockIf(b).Cond.(*ssa.BinOp); ok && eng.IsOrderedCmp(bo.Op) {
+					if _, _, _, ok1 := side(bo.X); ok1 {
+						blocked[[2]int{b.Index, 0}] = true
+					}
+				}
+			}
+			reach := eng.Reachable(fn.Blocks[0], blocked)
+			for _, b := range fn.Blocks {
+				for _, in := range b.Instrs {
+					if ret, ok := in.(*ssa.Return); ok {
+						if k, isC := ret.Results[0].(*ssa.Const); isC && k.Value != nil && k.Value.String() == "false" && reach[b] {
+							bad = "false is also returned at " + p.Pos(ret.Pos()) + " without any interval being disjoint (an extra early exit): the answer no longer agrees with closed-interval arithmetic on the queried dimensions"
+						}
+					}
+				}
+			}
+		}
 		r.Check(bad == "", rule, short(fn), p.Pos(fn.Pos()), true, "closed-interval disjointness tests per dimension", bad)
 	}
 	check("Overlaps", [][2]string{{"min", "max"}, {"max", "min"}})
@@ -946,4 +970,460 @@ func rdpScanRule(p *core.Program, r *core.Report, rule string) {
 		}
 	}
 	r.Check(okSplit, rule, short(fn)+"/split-test", p.Pos(fn.Pos()), true, "split iff max squared distance > threshold*threshold", "the split decision is not `maxDist > threshold*threshold` on the maximum of the measured squared distances")
+}
+
+// controllingIfs returns the If blocks that decide whether blk executes: b controls blk when exactly one of b's
+// successors dominates (or is) blk.
+func controllingIfs(blk *ssa.BasicBlock) []*ssa.BasicBlock {
+	var out []*ssa.BasicBlock
+	for _, b := range blk.Parent().Blocks {
+		if eng.BlockIf(b) == nil || len(b.Succs) != 2 {
+			continue
+		}
+		d0 := b.Succs[0] == blk || b.Succs[0].Dominates(blk)
+		d1 := b.Succs[1] == blk || b.Succs[1].Dominates(blk)
+		if d0 != d1 && len(b.Succs[0].Preds) >= 1 {
+			// the dominating successor must be entered only from b for the control to be real
+			s := b.Succs[0]
+			if d1 {
+				s = b.Succs[1]
+			}
+			other := b.Succs[0]
+			if d0 {
+				other = b.Succs[1]
+			}
+			if len(s.Preds) == 1 && !returnsError(other) {
+				out = append(out, b)
+			}
+		}
+	}
+	return out
+}
+
+// returnsError reports whether blk immediately returns with a non-nil last result (an error exit).
+func returnsError(blk *ssa.BasicBlock) bool {
+	if len(blk.Instrs) == 0 {
+		return false
+	}
+	ret, ok := blk.Instrs[len(blk.Instrs)-1].(*ssa.Return)
+	if !ok || len(ret.Results) == 0 {
+		return false
+	}
+	last := ret.Results[len(ret.Results)-1]
+	return !eng.IsNilConst(last) && types.Identical(last.Type(), types.Universe.Lookup("error").Type())
+}
+
+// bboxEmittedRule (C07): the Feature / FeatureCollection bbox is encoded whenever it is non-nil - the only
+// condition controlling the encodeBBox call is the nil test of the BBox field.
+func bboxEmittedRule(p *core.Program, r *core.Report, rule string) {
+	r.Rule(rule, "in Feature.MarshalJSON and FeatureCollection.MarshalJSON the call encodeBBox(x.BBox) is controlled by exactly one condition, x.BBox != nil: a bounding box that is present is always written (boxes crossing the antimeridian have west > east and must not be mistaken for empty ones)", 2)
+	for _, tn := range []string{"Feature", "FeatureCollection"} {
+		fn := mustFn(p, r, rule, "encoding/geojson", "(*"+tn+").MarshalJSON")
+		if fn == nil {
+			continue
+		}
+		var call ssa.Instruction
+		for _, c := range eng.Calls(fn) {
+			if f := c.Common().StaticCallee(); f != nil && f.Name() == "encodeBBox" {
+				call = c
+			}
+		}
+		if call == nil {
+			r.Bad(rule, short(fn), p.Pos(fn.Pos()), "MarshalJSON no longer encodes the bounding box")
+			continue
+		}
+		bad := ""
+		n := 0
+		for _, cb := range controllingIfs(call.Block()) {
+			c, ok := eng.EdgeCmp(cb, 0)
+			isNilTest := false
+			if ok && (c.Op == token.NEQ || c.Op == token.EQL) && eng.IsNilConst(c.Y) {
+				if _, path, isF := fieldLoad(c.X); isF && path == ".BBox" {
+					isNilTest = true
+				}
+			}
+			if isNilTest {
+				n++
+			} else {
+				bad = "the bounding box is written only under an additional condition (" + eng.BlockIf(cb).Cond.String() + ") at " + p.Pos(eng.BlockIf(cb).Cond.Pos()) + ": a present bbox can be silently dropped"
+			}
+		}
+		if bad == "" && n != 1 {
+			bad = fmt.Sprintf("%d nil tests control the bbox encoding, want exactly one", n)
+		}
+		r.Check(bad == "", rule, short(fn), p.Pos(call.Pos()), true, "encodeBBox is called iff BBox != nil", bad)
+	}
+}
+
+// validatorThresholdRule (C06): minimum sizes of linestrings and rings are counted in coordinates of the current layout.
+func validatorThresholdRule(p *core.Program, r *core.Report, rule string) {
+	r.Rule(rule, "isValidLineString rejects fewer than 2 and isValidPolygonRing fewer than 4 coordinates, counted as len(flatCoords) < k*stride with stride = curLayout().Stride() (all ordinates, M included), and the ring closure test compares ordinate i with ordinate len-stride+i", 2)
+	for _, v := range []struct {
+		name string
+		k    int64
+	}{{"isValidLineString", 2}, {"isValidPolygonRing", 4}} {
+		fn := mustFn(p, r, rule, wktRel, "(*wktLex)."+v.name)
+		if fn == nil {
+			continue
+		}
+		ok, why := false, fmt.Sprintf("no test `len(flatCoords) < %d*stride` with stride = curLayout().Stride()", v.k)
+		isStrideCall := func(x ssa.Value) bool {
+			c, isC := x.(*ssa.Call)
+			if !isC {
+				return false
+			}
+			o := eng.CalleeObj(c)
+			if o == nil || o.Name() != "Stride" {
+				return false
+			}
+			recv, isR := c.Call.Args[0].(*ssa.Call)
+			return isR && recv.Call.StaticCallee() != nil && recv.Call.StaticCallee().Name() == "curLayout"
+		}
+		for _, b := range fn.Blocks {
+			c, okc := eng.EdgeCmp(b, 0)
+			if !okc || c.Op != token.LSS {
+				continue
+			}
+			lc, isL := c.X.(*ssa.Call)
+			if !isL || eng.BuiltinName(lc) != "len" || lc.Call.Args[0] != ssa.Value(fn.Params[1]) {
+				continue
+			}
+			mul, isM := c.Y.(*ssa.BinOp)
+			if !isM || mul.Op != token.MUL {
+				why = "the minimum size is not a multiple of the stride"
+				continue
+			}
+			k, isK := eng.ConstInt(mul.X)
+			other := mul.Y
+			if !isK {
+				k, isK = eng.ConstInt(mul.Y)
+				other = mul.X
+			}
+			switch {
+			case !isK || k != v.k:
+				why = fmt.Sprintf("the minimum number of coordinates is %d, want %d", k, v.k)
+			case !isStrideCall(other):
+				why = "the minimum size is counted in units of " + other.String() + ", not of curLayout().Stride(): for layouts with M a ring of fewer coordinates passes"
+			default:
+				ok = true
+			}
+		}
+		r.Check(ok, rule, short(fn), p.Pos(fn.Pos()), true, fmt.Sprintf("len(flatCoords) < %d*curLayout().Stride() is rejected", v.k), why)
+	}
+}
+
+// sridRules (C04): the SRID flag and word are written exactly when the SRID is non-zero, read exactly when the flag
+// is set, and every geometry the reader constructs receives the decoded SRID.
+func sridRules(p *core.Program, r *core.Report, rule string) {
+	r.Rule(rule, "ewkb writer: the only condition controlling `type |= ewkbSRID` is g.SRID() != 0 and the only condition controlling the write of the SRID word is that flag (or the same test); ewkb reader: the SRID word is read exactly under `type & ewkbSRID != 0` and each of the 7 geometries Read constructs is given SetSRID(int(srid)) - members carry their own SRID and inherit nothing, so anything else changes decode(encode(x))", 10)
+	pkg := p.SSA.ImportedPackage(core.ModPath + "/encoding/ewkb")
+	if pkg == nil {
+		r.Lost(rule, "encoding/ewkb", "package not found")
+		return
+	}
+	flagC, _ := pkg.Pkg.Scope().Lookup("ewkbSRID").(*types.Const)
+	if flagC == nil {
+		r.Lost(rule, "encoding/ewkb.ewkbSRID", "constant not found")
+		return
+	}
+	flag, _ := constant.Int64Val(flagC.Val())
+	isFlag := func(v ssa.Value) bool { k, ok := eng.ConstInt(v); return ok && k == flag }
+	isSRIDCall := func(v ssa.Value) bool {
+		for {
+			switch x := v.(type) {
+			case *ssa.Convert:
+				v = x.X
+				continue
+			case *ssa.ChangeType:
+				v = x.X
+				continue
+			case *ssa.Call:
+				o := eng.CalleeObj(x)
+				return o != nil && o.Name() == "SRID"
+			}
+			return false
+		}
+	}
+	// cond kinds: "srid" = SRID() != 0, "flag" = v & ewkbSRID != 0
+	condKind := func(b *ssa.BasicBlock) string {
+		c, ok := eng.EdgeCmp(b, 0)
+		if !ok || c.Op != token.NEQ {
+			return ""
+		}
+		if k, isK := eng.ConstInt(c.Y); !isK || k != 0 {
+			return ""
+		}
+		if isSRIDCall(c.X) {
+			return "srid"
+		}
+		if and, isA := c.X.(*ssa.BinOp); isA && and.Op == token.AND && (isFlag(and.X) || isFlag(and.Y)) {
+			return "flag"
+		}
+		return ""
+	}
+	exact := func(blk *ssa.BasicBlock, allowed ...string) string {
+		n := 0
+		for _, cb := range controllingIfs(blk) {
+			k := condKind(cb)
+			okK := false
+			for _, a := range allowed {
+				if a == k {
+					okK = true
+				}
+			}
+			if !okK {
+				return "an additional condition (" + eng.BlockIf(cb).Cond.String() + ") at " + p.Pos(eng.BlockIf(cb).Cond.Pos()) + " decides it"
+			}
+			n++
+		}
+		if n != 1 {
+			return fmt.Sprintf("%d conditions of the expected form control it, want exactly one", n)
+		}
+		return ""
+	}
+	nset, nword, nread := 0, 0, 0
+	for _, fn := range pkgFuncs(p, "encoding/ewkb") {
+		for _, b := range fn.Blocks {
+			for _, in := range b.Instrs {
+				switch x := in.(type) {
+				case *ssa.BinOp:
+					if x.Op == token.OR && (isFlag(x.X) || isFlag(x.Y)) {
+						nset++
+						why := exact(b, "srid")
+						r.Check(why == "", rule, short(fn)+"/set-flag", p.Pos(x.Pos()), true, "flag set iff SRID() != 0", "the SRID flag is not set exactly when the SRID is non-zero: "+why+"; a geometry whose SRID is dropped decodes to SRID 0")
+					}
+				case *ssa.Call:
+					if f := x.Call.StaticCallee(); f != nil && f.Name() == "Write" && core.FnPkgPath(f) == "encoding/binary" && len(x.Call.Args) == 3 {
+						if mi, ok := x.Call.Args[2].(*ssa.MakeInterface); ok && isSRIDCall(mi.X) {
+							nword++
+							why := exact(b, "srid", "flag")
+							r.Check(why == "", rule, short(fn)+"/write-word", p.Pos(x.Pos()), true, "SRID word written iff flag set", "the SRID word is not written exactly when the flag is set: "+why)
+						}
+					}
+				}
+			}
+		}
+	}
+	if rd := mustFn(p, r, rule, "encoding/ewkb", "Read"); rd != nil {
+		// the ReadUInt32 whose controlling condition is the flag test
+		var sridVals = map[ssa.Value]bool{}
+		for _, c := range eng.Calls(rd) {
+			f := c.Common().StaticCallee()
+			if f == nil || f.Name() != "ReadUInt32" {
+				continue
+			}
+			ctl := controllingIfs(c.Block())
+			isFlagRead := false
+			for _, cb := range ctl {
+				if condKind(cb) == "flag" {
+					isFlagRead = true
+				}
+			}
+			if !isFlagRead {
+				continue
+			}
+			nread++
+			why := exact(c.Block(), "flag")
+			r.Check(why == "", rule, short(rd)+"/read-word", p.Pos(c.Pos()), true, "SRID word read iff flag set", "the SRID word is not read exactly when the flag is set: "+why)
+			if cv, ok := c.(ssa.Value); ok {
+				for _, ref := range *cv.Referrers() {
+					if ex, ok := ref.(*ssa.Extract); ok && ex.Index == 0 {
+						sridVals[ex] = true
+					}
+				}
+			}
+		}
+		if nread == 0 {
+			r.Bad(rule, short(rd)+"/read-word", p.Pos(rd.Pos()), "no read of the SRID word under `type & ewkbSRID != 0` was found")
+		}
+		// phi closure
+		for changed := true; changed; {
+			changed = false
+			for _, b := range rd.Blocks {
+				for _, in := range b.Instrs {
+					switch x := in.(type) {
+					case *ssa.Phi:
+						for _, e := range x.Edges {
+							if sridVals[e] && !sridVals[x] {
+								sridVals[x], changed = true, true
+							}
+						}
+					case *ssa.Convert:
+						if sridVals[x.X] && !sridVals[x] {
+							sridVals[x], changed = true, true
+						}
+					}
+				}
+			}
+		}
+		for _, c := range eng.Calls(rd) {
+			f := c.Common().StaticCallee()
+			if f == nil || !strings.HasPrefix(f.Name(), "New") || core.FnPkgPath(f) != core.ModPath {
+				continue
+			}
+			cv, _ := c.(ssa.Value)
+			ok := false
+			for _, ref := range *cv.Referrers() {
+				if sc, isC := ref.(*ssa.Call); isC {
+					if g := sc.Call.StaticCallee(); g != nil && g.Name() == "SetSRID" && len(sc.Call.Args) == 2 && sc.Call.Args[0] == cv && sridVals[sc.Call.Args[1]] {
+						ok = true
+					}
+				}
+			}
+			r.Check(ok, rule, fmt.Sprintf("%s/%s#%d", short(rd), f.Name(), ordinalOf(rd, c)), p.Pos(c.Pos()), true, "constructed geometry receives SetSRID(int(srid))", "the geometry built here is not given the decoded SRID: it decodes with SRID 0")
+		}
+	}
+	if nset == 0 || nword == 0 {
+		r.Bad(rule, "encoding/ewkb.Write/srid", "", fmt.Sprintf("writer sites not found: flag-set=%d word-write=%d", nset, nword))
+	}
+}
+
+// lastNonEmptyScanRule (C02/C05): a loop that searches a [][]int for a non-empty row, takes that row's last end and
+// stops must walk towards lower indices: the running offset is the last end of the LAST non-empty member.
+func lastNonEmptyScanRule(p *core.Program, r *core.Report, rule string, floor int, rels ...string) {
+	r.Rule(rule, "every loop over the rows of an endss ([][]int) that leaves the loop as soon as it has read the last end of a non-empty row has a decreasing induction variable (it finds the last non-empty member before a position, never the first): the offsets of member k are based on the end of the nearest earlier non-empty member", floor)
+	nkey := map[*ssa.Function]int{}
+	for _, fn := range pkgFuncs(p, rels...) {
+		for _, hb := range fn.Blocks {
+			for _, in := range hb.Instrs {
+				phi, ok := in.(*ssa.Phi)
+				if !ok {
+					break
+				}
+				if b, isB := phi.Type().Underlying().(*types.Basic); !isB || b.Kind() != types.Int {
+					continue
+				}
+				dir := 0
+				var step ssa.Value
+				for _, e := range phi.Edges {
+					if bo, isBo := e.(*ssa.BinOp); isBo && bo.X == ssa.Value(phi) {
+						if k, isK := eng.ConstInt(bo.Y); isK && (bo.Op == token.ADD || bo.Op == token.SUB) && (k == 1 || k == -1) {
+							if (bo.Op == token.ADD) == (k == 1) {
+								dir = 1
+							} else {
+								dir = -1
+							}
+							step = bo
+						}
+					}
+				}
+				if dir == 0 {
+					continue
+				}
+				// loop body: blocks dominated by the header from which the header is reachable
+				body := map[*ssa.BasicBlock]bool{}
+				for _, b := range fn.Blocks {
+					if hb.Dominates(b) && eng.Reachable(b, nil)[hb] {
+						body[b] = true
+					}
+				}
+				body[hb] = true
+				// the row values: every load of X[i] with X a [][]int and i the induction variable (go/ssa does no CSE)
+				rows := map[ssa.Value]bool{}
+				for _, b := range fn.Blocks {
+					if !hb.Dominates(b) {
+						continue
+					}
+					for _, bi := range b.Instrs {
+						var rowsV, idx ssa.Value
+						switch x := bi.(type) {
+						case *ssa.IndexAddr:
+							rowsV, idx = x.X, x.Index
+						case *ssa.Index:
+							rowsV, idx = x.X, x.Index
+						default:
+							continue
+						}
+						if (idx != ssa.Value(phi) && idx != step) || !isIntSliceSliceT(rowsV.Type()) {
+							continue
+						}
+						if ia, isIA := bi.(*ssa.IndexAddr); isIA {
+							for _, ref := range *ia.Referrers() {
+								if u, isU := ref.(*ssa.UnOp); isU && u.Op == token.MUL {
+									rows[u] = true
+								}
+							}
+						} else {
+							rows[bi.(ssa.Value)] = true
+						}
+					}
+				}
+				if len(rows) == 0 {
+					continue
+				}
+				{
+					{
+						// last-element reads of the row inside the loop
+						for _, lb := range fn.Blocks {
+							if !hb.Dominates(lb) {
+								continue
+							}
+							for _, li := range lb.Instrs {
+								la, isLA := li.(*ssa.IndexAddr)
+								if !isLA || !rows[la.X] {
+									continue
+								}
+								sub, isS := la.Index.(*ssa.BinOp)
+								if !isS || sub.Op != token.SUB {
+									continue
+								}
+								if k, isK := eng.ConstInt(sub.Y); !isK || k != 1 {
+									continue
+								}
+								lc, isL := sub.X.(*ssa.Call)
+								if !isL || eng.BuiltinName(lc) != "len" || !rows[lc.Call.Args[0]] {
+									continue
+								}
+								// early exit: a path from lb out of the loop that avoids the header
+								exits := false
+								seen := map[*ssa.BasicBlock]bool{}
+								var walk func(*ssa.BasicBlock)
+								walk = func(x *ssa.BasicBlock) {
+									if seen[x] || x == hb {
+										return
+									}
+									seen[x] = true
+									if !body[x] {
+										exits = true
+										return
+									}
+									if len(x.Succs) == 0 {
+										exits = true
+									}
+									for _, s := range x.Succs {
+										walk(s)
+									}
+								}
+								walk(lb)
+								if !exits {
+									continue
+								}
+								nkey[fn]++
+								key := fmt.Sprintf("%s/scan#%d", short(fn), nkey[fn])
+								r.Check(dir < 0, rule, key, p.Pos(la.Pos()), true, "the search walks down from the end and stops at the last non-empty row", "the search walks upwards and stops at the FIRST non-empty row: with three or more non-empty members the offsets are rebased on the wrong end")
+							}
+						}
+					}
+				}
+			}
+		}
+	}
+}
+
+func isIntSliceSliceT(t types.Type) bool {
+	s, ok := t.Underlying().(*types.Slice)
+	if !ok {
+		if pt, isP := t.Underlying().(*types.Pointer); isP {
+			s, ok = pt.Elem().Underlying().(*types.Slice)
+		}
+		if !ok {
+			return false
+		}
+	}
+	s2, ok := s.Elem().Underlying().(*types.Slice)
+	if !ok {
+		return false
+	}
+	b, ok := s2.Elem().Underlying().(*types.Basic)
+	return ok && b.Kind() == types.Int
 }
